@@ -85,12 +85,6 @@ func compileProps(props []genDecl) []unitResult {
 }
 
 func c12Sig(p genDecl, fv FValue, declared bool, vd verdict) string {
-	switch p.Class {
-	case "inverted-bounds":
-		return "C12 integer minimum > maximum: validator accepts values outside [maximum, minimum] although no value satisfies the declared bounds"
-	case "bound-out-of-range":
-		return "C12 integer bound outside the range of its format is truncated by the compiler (int64 -> int32/uint32/uint64 conversion)"
-	}
 	if p.P.Opt && fv.Absent && declared && !vd.Accept {
 		return "C12 optional field not populated: validator applies the rules to the zero value (proto3_optional emitted without a synthetic oneof, so the compiled field has no presence)"
 	}
